@@ -29,6 +29,9 @@ PJPLAN_SRC = os.environ.get('PJPLAN_SRC', '/repo/src')
 
 EXIT_OK, EXIT_VIOLATION, EXIT_HARNESS = 0, 1, 2
 
+# tier of the running check: generators widen their bounds under 'thorough' (set by the driver, also inside workers)
+TIER = 'quick'
+
 
 class HarnessError(Exception):
     """Something is wrong with the simulator, not with pjplan."""
